@@ -3,7 +3,7 @@
 from __future__ import annotations
 
 import copy
-from collections.abc import Iterator
+from collections.abc import Collection, Iterable, Iterator
 from enum import Enum
 from typing import TYPE_CHECKING, Any
 
@@ -624,6 +624,20 @@ def filter_outputs(
 
     names = [effective] if isinstance(effective, str) else effective
     return _collect_selected_outputs(state, names, _EMIT_SENTINEL, on_missing)
+
+
+def _materialize_select(select: Any) -> Any:
+    """Read a one-shot iterable of names once, at the call boundary.
+
+    The selection is needed twice per run (validation, then the output filter)
+    and once per item by map(): a generator or iterator would be exhausted by
+    its first use, leaving the later ones without any selection.
+    """
+    if select is _UNSET_SELECT or isinstance(select, (str, Collection)):
+        return select
+    if isinstance(select, Iterable):
+        return tuple(select)
+    return select
 
 
 def _resolve_select(select: Any, graph: Graph) -> str | list[str]:
